@@ -271,7 +271,7 @@ theorem C14_rollback_to_restores_partial (s : TState) (t : Txn) (n : String) (re
 theorem C14_delete_counterexample : ¬ C14_full := by
   intro h
   have h1 := h (run (init []) [.insert [[.int 1]], .begin])
-    { snapRows := [[.int 1]], snapH := [], saves := [], log := [] } "A" [.delete [0]] rfl
+    { snapRows := [[.int 1]], snapH := [], snapU := [], saves := [], log := [] } "A" [.delete [0]] rfl
     (by simp [RegionOp])
   have h2 := h1.2.length_eq
   revert h2
@@ -282,7 +282,7 @@ savepoint the undo of that insert fails (`RowNotFound`) -/
 theorem C14_update_counterexample : ¬ C14_full := by
   intro h
   have h1 := h (run (init []) [.insert [[.int 1]], .begin])
-    { snapRows := [[.int 1]], snapH := [], saves := [], log := [] } "A"
+    { snapRows := [[.int 1]], snapH := [], snapU := [], saves := [], log := [] } "A"
     [.insert [[.int 2]], .update [(1, [.int 3], [0])]] rfl (by simp [RegionOp])
   have h2 := h1.1
   revert h2
